@@ -179,16 +179,28 @@ def prepare_model(spec, cfgspec, json_bytes, flavor='asan', scratch_root=None, f
 
 
 def _classify(output, generated_names):
-    """A compile failure whose first diagnostic lies in a generated file is attributed to dznpy."""
+    """Attribute a compile failure.  The first file position (file:line:col) among all diagnostics - errors, notes
+    and 'in instantiation of ... requested here' - that names either a file returned by the builder or a harness
+    file decides: a template error deep inside a system header is attributed to whoever instantiated it.
+    An undefined reference to a shell member is dznpy's too."""
+    import re
+    pos = re.compile(r'^(?:In file included from )?([^\s:]+):(\d+)(?::(\d+))?[:,]')
+    if not any(' error' in l or 'error:' in l for l in output.splitlines()):
+        return 'harness:unknown'
     for line in output.splitlines():
-        if ' error' in line or 'error:' in line:
-            fname = os.path.basename(line.split(':')[0])
+        m = pos.match(line.strip())
+        if m:
+            fname = os.path.basename(m.group(1))
             if fname in generated_names:
                 return 'generated'
-            # an undefined reference to a shell member, or a member missing from the shell struct, is also dznpy's
-            if 'undefined reference' in line:
-                return 'generated'
-            return 'harness:' + fname
+            if fname in ('glue.cc', 'harness.hh', 'harness.cc', 'kernel.h', 'simtypes.hh'):
+                # the glue includes the shell header (or, for global-namespace shells, the shell source): keep looking
+                # only if this is an include-chain line
+                if line.strip().startswith('In file included from'):
+                    continue
+                return 'harness:' + fname
+        if 'undefined reference' in line:
+            return 'generated'
     return 'harness:unknown'
 
 
